@@ -209,7 +209,7 @@ Lemma dg_elem_S fuel' grp pos off : dgE (S fuel') grp pos off =
             let pos1 := pos + 1 in
             let v := cstr val in
             let g1 := mark_present (add_field_decoder grp tv pos1 v) tv in
-            if t_group tr && has_group_count v then
+            if t_group tr && has_group_count_c c tv v then
               match dgG fuel' g1 tv off1 with
               | Ok (g2, off2) => dgE fuel' g2 pos1 off2
               | Exc e => Exc e | OOB s => OOB s | Diverge => Diverge | Fuel => Fuel
@@ -287,7 +287,7 @@ Proof.
     set (g1 := mark_present (add_field_decoder grp tv (pos + 1) (cstr val)) tv).
     assert (Hg1 : mb_ok nh false g1 = true) by (unfold g1; rewrite mb_ok_field; exact Hok).
     assert (Hadv1 : adv off (off + r)) by (unfold adv; lia).
-    destruct (t_group tr && has_group_count (cstr val)) eqn:Eg.
+    destruct (t_group tr && has_group_count_c c tv (cstr val)) eqn:Eg.
     + apply andb_true_iff in Eg. destruct Eg as [Eg _].
       assert (Hsub : is_some (find_sub (mb_subs g1) tv) = true).
       { unfold g1. rewrite fp_field. exact (mb_ok_closed _ _ _ _ _ Hok Ef Eg). }
@@ -355,7 +355,7 @@ Lemma opt_group_good m tr tv v off :
   rgood bd nh nd True (post_opt m off) (opt_group c cp from fsize gfuel m tr tv v off).
 Proof.
   intros Hok Hsub Hoff. unfold opt_group.
-  destruct (t_group tr && has_group_count v) eqn:Eg; [|rg; auto using N.le_refl].
+  destruct (t_group tr && has_group_count_c c tv v) eqn:Eg; [|rg; auto using N.le_refl].
   apply andb_true_iff in Eg. destruct Eg as [Eg _].
   pose proof (decode_group_good gfuel m tv off nd Hok (Hsub Eg)) as H.
   destruct (decode_group c cp from fsize gfuel m tv off) as [[m' off']| | | |]; rg in H; rg.
